@@ -17,6 +17,7 @@ type TransferOpts struct {
 	Server   bool
 	Progress bool
 
+	Recurse           bool
 	DeleteMode        bool
 	PreserveGid       bool
 	PreserveUid       bool
